@@ -3,6 +3,7 @@ package main
 import (
 	"fmt"
 	"go/token"
+	"os"
 	"strings"
 
 	"golang.org/x/tools/go/ssa"
@@ -149,6 +150,31 @@ func ruleC06UnionWiring(c *Ctx) {
 					case !lOK || !rOK:
 						why = append(why, "the concatenation is not (rows of expr.Left)… then (rows of expr.Right)…: "+l.String()+" ; "+r.String())
 					default:
+						okShape = true
+					}
+				}
+			}
+			if !okShape && len(why) == 0 {
+				// the pre-sized form: make([]any, len(L)+len(R)); copy(rows, L); copy(rows[len(L):], R)
+				if ms, isMS := fromVal.V.(*ssa.MakeSlice); isMS {
+					var l, r *Term
+					for _, e := range p.Effects {
+						if e.Kind != "call" || e.Callee != "builtin:copy" || len(e.Args) != 2 {
+							continue
+						}
+						dst, src := e.Args[0], e.Args[1]
+						if os.Getenv("GENQLCHECK_DEBUG") != "" {
+							fmt.Fprintf(os.Stderr, "union-wiring copy: dst=%s (op %s, nargs %d) src=%s len=%s\n", dst, dst.Op, len(dst.Args), src, NewTB().Of(ms.Len))
+						}
+						switch {
+						case dst.V == ssa.Value(ms):
+							l = src
+						case dst.Op == "slice" && len(dst.Args) >= 3 && dst.Args[0].V == ssa.Value(ms) && l != nil && dst.Args[1].String() == "builtin:len("+l.String()+")" && dst.Args[2].String() == "c:-":
+							r = src
+						}
+					}
+					if l != nil && r != nil && NewTB().Of(ms.Len).String() == "(builtin:len("+l.String()+") + builtin:len("+r.String()+"))" &&
+						fieldsRead(l, ep)["Left"] && !fieldsRead(l, ep)["Right"] && fieldsRead(r, ep)["Right"] && !fieldsRead(r, ep)["Left"] {
 						okShape = true
 					}
 				}
